@@ -101,7 +101,8 @@ theorem c02_genesis (g : Genesis) (h : g.wf = true) :
   last block's SetPowers) take `G` to `M` again; InitChain of every well-formed genesis ends in `G` (`genesis_G`). -/
 
 /-- **C02 and C04 for every quiet history** (`QuietHistory`, decidable form `quietRunB` evaluated by the driver as
-    `QUIET` lines): any well-formed genesis, any number of blocks in which every validator votes, no evidence arrives,
+    `QUIET` lines): any well-formed genesis, any number of blocks in which x/slashing's BeginBlocker punishes nobody (votes may be absent
+    as long as the downtime rule does not fire), no evidence arrives,
     and every transaction either leaves the state unchanged (all rejected transactions, bank sends) or is a
     CreateValidator, a RemovePending, the admin's SetPower admitting a pending applicant, or the admin's SetPower of an
     existing validator that was not re-weighted earlier in the block (no D3) to a power at which it owns no index entry
